@@ -14,11 +14,15 @@ for d in seeded/C*-*; do
 import json, sys
 d, c, t, dp, dc, det = sys.argv[1:7]
 a = json.load(open(f"{d}/meta.agent.json"))
+import os
+old = json.load(open(f"{d}/meta.json")) if os.path.exists(f"{d}/meta.json") else {}
 m = {"property": c, "title": a.get("title"), "what_changed": a.get("what_changed"), "needs_to_manifest": a.get("needs_to_manifest"),
      "source": "independent sub-agent given only the property text and a scratch worktree",
      "verified_by_me": {"repo_tests_with_patch": t, "demo_with_patch": dp, "demo_without_patch": dc,
                         "how": "tools/try_seed.sh: git -C /repo apply patch.diff; pytest msmart; pytest demo_test.py; ./check <id> --tier quick; git -C /repo checkout -- .; pytest demo_test.py"},
      "check_result": det}
+if old.get("note"):
+    m["note"] = old["note"]
 json.dump(m, open(f"{d}/meta.json", "w"), indent=1)
 PY
 done
